@@ -1435,17 +1435,67 @@ pub fn fault_input(rng: &mut Rng, bases: &[(Vec<u8>, usize)]) -> FaultInput {
     FaultInput { bytes, bit_len, kind: kinds.join("+") }
 }
 
+/// can a value of this type be encoded in zero bits? (NULL, single-value INTEGER, one-item ENUMERATED, SIZE(0) strings,
+/// and constructions of those)
+fn can_be_zero_width(u: &Universe, mi: usize, t: &Type, depth: usize) -> bool {
+    if depth > 30 {
+        return false;
+    }
+    let fixed_zero = |size: &Size| matches!(size.bounds(), Some((0, Some(0)))) && !size.ext();
+    match t {
+        Type::Ref(n) => u.lookup_def(mi, n).map(|(dmi, d)| can_be_zero_width(u, dmi, &d.ty, depth + 1)).unwrap_or(false),
+        Type::Boolean => false,
+        Type::Null => true,
+        Type::Integer { c, .. } => {
+            let (root, ext) = vgen::resolve::int_root(c);
+            !ext && matches!(root, vgen::resolve::IntRoot::Constrained(a, b) if a == b)
+        }
+        Type::Enumerated { root, ext } => ext.is_none() && root.len() == 1,
+        Type::BitString { size, .. } | Type::OctetString { size } | Type::CharString { size, .. } => fixed_zero(size),
+        Type::Sequence(c) | Type::Set(c) => c.ext.is_none() && c.root.iter().all(|comp| matches!(comp.presence, Presence::Mandatory) && can_be_zero_width(u, mi, &comp.ty, depth + 1)),
+        Type::SequenceOf { elem, size } | Type::SetOf { elem, size } => match size.bounds() {
+            Some((lb, Some(ub))) if lb == ub && !size.ext() => lb == 0 || can_be_zero_width(u, mi, elem, depth + 1),
+            _ => false,
+        },
+        Type::Choice { root, ext } => ext.is_none() && root.len() == 1 && can_be_zero_width(u, mi, &root[0].ty, depth + 1),
+    }
+}
+
+/// does the type contain a list whose elements may take no bits at all? Then the number of elements a decoder has to
+/// materialise is bounded by the length determinants only (up to 64K per octet of input), not by the remaining input.
+pub fn has_zero_width_list_elements(u: &Universe, mi: usize, t: &Type, depth: usize) -> bool {
+    if depth > 30 {
+        return false;
+    }
+    match t {
+        Type::Ref(n) => u.lookup_def(mi, n).map(|(dmi, d)| has_zero_width_list_elements(u, dmi, &d.ty, depth + 1)).unwrap_or(false),
+        Type::Sequence(c) | Type::Set(c) => c.all().any(|comp| has_zero_width_list_elements(u, mi, &comp.ty, depth + 1)),
+        Type::SequenceOf { elem, .. } | Type::SetOf { elem, .. } => can_be_zero_width(u, mi, elem, 0) || has_zero_width_list_elements(u, mi, elem, depth + 1),
+        Type::Choice { root, ext } => root.iter().chain(ext.iter().flatten()).any(|a| has_zero_width_list_elements(u, mi, &a.ty, depth + 1)),
+        _ => false,
+    }
+}
+
 pub const ALLOC_BASE: usize = 64 << 20;
+/// per octet of input when list elements may be zero bits wide: 64K elements per length octet, a generous 1 KiB each
+pub const ALLOC_PER_BYTE_ZERO_WIDTH: usize = 65536 * 1024;
 pub const ALLOC_PER_BYTE: usize = 4096;
 
-fn c04_uper_case<T: ZooType>(rep: &mut Report, e: &TypeEntry, inp: &FaultInput) {
+fn c04_uper_case<T: ZooType>(rep: &mut Report, e: &TypeEntry, inp: &FaultInput, zero_width_lists: bool) {
     rep.eval();
-    let w_ = |extra: Value| json!({"type": e.def, "family": e.family, "reader": "uper", "fault": inp.kind, "input_hex": hex(&inp.bytes), "bit_len": inp.bit_len, "detail": extra});
+    let w_ = |extra: Value| json!({"type": e.def, "type_id": e.id, "family": e.family, "reader": "uper", "fault": inp.kind, "input_hex": hex(&inp.bytes), "bit_len": inp.bit_len, "detail": extra});
     let mut reader = UperReader::from(SpyBits::new(&inp.bytes, inp.bit_len));
     crate::alloc::arm();
     let res = guarded(|| reader.read::<T>().map(|t| drop(t)));
     let st = crate::alloc::disarm();
-    let limit = ALLOC_BASE + ALLOC_PER_BYTE * inp.bytes.len();
+    // a list of zero-width elements (SEQUENCE OF NULL ...) takes no input per element: what a decoder must materialise is
+    // bounded by the length determinants only
+    let limit = ALLOC_BASE + if zero_width_lists { ALLOC_PER_BYTE_ZERO_WIDTH } else { ALLOC_PER_BYTE } * inp.bytes.len();
+    if zero_width_lists {
+        rep.hist("alloc-bound", "zero-width-list-elements:64K-elements-per-octet");
+    } else {
+        rep.hist("alloc-bound", "4096-per-octet");
+    }
     if st.max_request > limit || st.peak_live > limit {
         rep.violation("c04:uper:allocation-not-bounded-by-input", w_(json!({"max_request": st.max_request, "peak_live": st.peak_live, "limit": limit})));
     }
@@ -1488,7 +1538,7 @@ fn c04_uper_case<T: ZooType>(rep: &mut Report, e: &TypeEntry, inp: &FaultInput) 
 fn c04_proto_case<T: ZooType>(rep: &mut Report, e: &TypeEntry, inp: &FaultInput) {
     use asn1rs::rw::ProtobufReader;
     rep.eval();
-    let w_ = |extra: Value| json!({"type": e.def, "family": e.family, "reader": "protobuf", "fault": inp.kind, "input_hex": hex(&inp.bytes), "detail": extra});
+    let w_ = |extra: Value| json!({"type": e.def, "type_id": e.id, "family": e.family, "reader": "protobuf", "fault": inp.kind, "input_hex": hex(&inp.bytes), "detail": extra});
     crate::alloc::arm();
     let res = guarded(|| {
         let mut reader = ProtobufReader::from(&inp.bytes[..]);
@@ -1550,6 +1600,8 @@ pub fn prewarm_backtrace_cache() {
 
 fn c04_run<T: ZooType>(ctx: &mut ZooCtx, e: &TypeEntry, bases: Vec<(Vec<u8>, usize)>) {
     prewarm_backtrace_cache();
+    // types without a schema model (corpus) are judged with the strict bound
+    let zero_width_lists = ctx.universe(e).map(|u| has_zero_width_list_elements(u, e.module, &Type::Ref(e.def.clone()), 0)).unwrap_or(false);
     let pbases = proto_bases::<T>(&bases);
     ctx.rep.hist("bases", if bases.is_empty() { "uper:none" } else { "uper:some" });
     ctx.rep.hist("bases", if pbases.is_empty() { "protobuf:none" } else { "protobuf:some" });
@@ -1578,7 +1630,7 @@ fn c04_run<T: ZooType>(ctx: &mut ZooCtx, e: &TypeEntry, bases: Vec<(Vec<u8>, usi
             if proto {
                 c04_proto_case::<T>(r, e, &inp)
             } else {
-                c04_uper_case::<T>(r, e, &inp)
+                c04_uper_case::<T>(r, e, &inp, zero_width_lists)
             }
         },
         |i| {
@@ -2262,7 +2314,7 @@ pub fn rule_text(prop: &str) -> String {
         "C03" => "bounded-exhaustive, seed-independent: every SEQUENCE/SET shape with n <= N components (N = 3 quick, 5 thorough) x {mandatory, OPTIONAL, DEFAULT}^n x extension marker {none, after component i} x all 2^k presence patterns (DEFAULT: default and non-default value); preamble derived from the property statement and compared bit by bit (extension bit, one presence bit per OPTIONAL/DEFAULT root component in order), total length, whole encoding vs R-PER, decode of own bits, decode of the reference bits of every pattern (incl. first addition absent / later present); refusal only as ExtensionFieldsInconsistent for exactly that pattern. distinct = distinct (shape, pattern)".to_string(),
         "C05" => "schema pairs (V1, V2 = V1 + k extension additions / alternatives / enumeration items; additions of 1, 2, 63, 64, 127, 128, 129, 300 octets, OPTIONAL and mandatory, nested extensible), also nested as list element and non-last component; values of either version written with one version followed by a sentinel, read with the other: abstract value == R-PER decoder of the other version, reader position == message end, sentinel intact; unknown CHOICE/ENUMERATED extensions may fail but never yield a value. distinct = distinct (direction, pair, encoding)".to_string(),
         "C06" => "every constrained leaf of generated values (zoo types incl. a dedicated edge family: single-value ranges, negative ranges, fixed/extensible/range sizes of every string and list kind): one violation at a time - INTEGER lb-1, ub+1, +-2^31; SIZE lb-1, 0, ub+1, 2ub; one illegal character at first/middle/last position per alphabet; only values the generated Rust type can hold (Injector->Extractor identity). Non-extensible => Err(ValueNotInRange|SizeNotInRange|InvalidString|InvalidChoiceIndex), Ok is a violation (replay says what the bits decode to); extensible => Ok, round trip, bits == R-PER. CHOICE/ENUMERATED indices through hand-written adversarial descriptor types. distinct = distinct (type, violating value, violated constraint)".to_string(),
-        "C04" => "every zoo type x inputs: 1/4 random byte strings (0..64 octets, sparse/dense, declared length in {0,1,7,8,8n-1,8n,random}) and 3/4 valid encodings of boundary values with 1..3 faults from {truncate, bit flip, insert/delete octet, length-determinant patterns 7F/BFFF/C4/FF/C1/8000.. at early positions, garbage behind the declared end, unaligned runs of ones/zeros, splice, shift by 1..7 bits}; UperReader<SpyBits>::read::<T> under the panic journal, the counting allocator (largest request and peak live <= 64 MiB + 4096 x input octets) and a forked child with watchdog and RLIMIT_AS (abort, hang); Ok => no read ended beyond the declared length and pos <= declared length; after every outcome bits_remaining()/pos()/len()/remaining() are called: no panic and pos + remaining == len; the same inputs (protobuf encodings with faults, whole octets) through ProtobufReader; the DER reader's number/boolean/raw primitives on all inputs of <= 2 octets and random longer ones. distinct = distinct (type, outcome kind, bits consumed)".to_string(),
+        "C04" => "every zoo type x inputs: 1/4 random byte strings (0..64 octets, sparse/dense, declared length in {0,1,7,8,8n-1,8n,random}) and 3/4 valid encodings of boundary values with 1..3 faults from {truncate, bit flip, insert/delete octet, length-determinant patterns 7F/BFFF/C4/FF/C1/8000.. at early positions, garbage behind the declared end, unaligned runs of ones/zeros, splice, shift by 1..7 bits}; UperReader<SpyBits>::read::<T> under the panic journal, the counting allocator (largest request and peak live <= 64 MiB + 4096 x input octets; for types with a list whose elements may be zero bits wide - SEQUENCE OF NULL, of a single-value INTEGER ... - 64 MiB per input octet, because up to 64K such elements per length octet are legitimate) and a forked child with watchdog and RLIMIT_AS (abort, hang); Ok => no read ended beyond the declared length and pos <= declared length; after every outcome bits_remaining()/pos()/len()/remaining() are called: no panic and pos + remaining == len; the same inputs (protobuf encodings with faults, whole octets) through ProtobufReader; the DER reader's number/boolean/raw primitives on all inputs of <= 2 octets and random longer ones. distinct = distinct (type, outcome kind, bits consumed)".to_string(),
         "C17" => "zoo types (random, protobuf-edge: every integer width/sign, NULL, BIT STRING, nested lists, CHOICE in CHOICE, optional everything; edges; sets) x boundary values: ProtobufWriter (growable) -> bytes; fixed-slice writer with a roomy and an exactly sized buffer must produce identical bytes and leave the rest of the buffer untouched, a buffer one octet short must be refused; ProtobufReader (borrowed and owned) -> value -> Extractor; oracle proto_eq on abstract values: identical except OPTIONAL absent == present Rust-default value. distinct = distinct (type, encoding)".to_string(),
         "C18" => "static: the .proto text the real ProtobufDefGenerator emits for every generated module set is parsed by an independent proto3 parser and validated (syntax, package, imports, unique symbols incl. enum values in package scope, identifiers, field numbers 1..2^29-1 unique and outside 19000..19999, unique field and JSON names, no repeated inside oneof, no repeated repeated, first enum value 0, resolvable types). dynamic: for every message type and boundary value the bytes of the real ProtobufWriter are split by an independent wire decoder and matched against the declared schema and the value: field number = position+1, declared scalar type decides how a conforming parser reads the varint (uint32 truncation, zig-zag), oneof numbering, enum numbering, nesting through named messages, repeated for lists, no undeclared field numbers, absent components not on the wire. distinct = distinct (type, encoding) that parsed to the value + distinct .proto texts".to_string(),
         "C19" => "every zoo type x (valid encodings, fault inputs as in C04): outcome (Ok + hash of the Debug rendering of the value | Err + Debug of the ErrorKind | panic signature) and bits consumed, recorded by two builds of the same zoo (default features / descriptive-deserialize-errors) into tables that the orchestrator compares line by line. distinct = distinct (type, outcome, consumed)".to_string(),
